@@ -554,6 +554,8 @@ Abs == INSTANCE LabRunAbs WITH
   exc <- IF pc = "raised" THEN <<exitk, "">> ELSE <<>>,
   subCount <- subCount, viaCache <- viaCache,
   slot <- running, inrun <- inrun, runCount <- runCount, loadCount <- loadCount,
+  nslot <- [t \in Tasks |-> IF t \in running THEN 1 ELSE 0],       \* the executor holds at most one process per task
+  nrun <- [t \in Tasks |-> IF t \in inrun THEN 1 ELSE 0],
   fin <- fin, done <- done, died <- died,
   held <- rmap, captured <- captured, dig <- dig, reads <- reads,
   atrest <- (pc = "wait_consume" \/ pc = "ser_run"),
